@@ -48,11 +48,14 @@ AlgReasons(r) ==
     [] f = "sequence_iteration" -> Diff(r, IterationR(r.ft, 0, r.xs))
     [] f = "join" -> Diff(r, ContainerJoinR(r.kind, r.cs))
     [] f = "at_optional" -> Diff(r, AtOptionalR(r.xs, r.i))
+    [] f = "at_optional_mut" -> Diff(r, AtOptionalMutR(r.xs, r.i, r.bump))
     [] f = "find_opt_mapped" -> Pre(IsMapSeq(r.m)) \cup Diff(r, FindOptMappedR(r.m, r.k))
+    [] f = "find_opt_mapped_mut" -> Pre(IsMapSeq(r.m)) \cup Diff(r, FindOptMappedMutR(r.m, r.k, r.bump))
+    [] f = "map_values_ref_mut" -> Pre(IsMapSeq(r.m)) \cup Diff(r, MapValuesRefMutR(r.m))
     [] f = "get_or_insert_with_result" -> Pre(IsMapSeq(r.m)) \cup Diff(r, GetOrInsertR(r.m, r.k, r.ft, r.bump))
     [] f = "get_or_insert" ->
          LET e == GetOrInsertR(r.m, r.k, r.ft, r.bump) IN
-         Pre(IsMapSeq(r.m)) \cup Diff(r, [elem |-> e.elem, log |-> e.log, st |-> e.st])
+         Pre(IsMapSeq(r.m)) \cup Diff(r, [elem |-> e.elem, log |-> e.log, present |-> e.present, st |-> e.st])
     [] f = "key_set" -> Pre(IsMapSeq(r.m)) \cup Diff(r, KeySetR(r.m))
     [] f \in {"map_values_copy", "map_values_ref"} -> Pre(IsMapSeq(r.m)) \cup Diff(r, MapValuesR(r.m))
     [] f \in {"set_union", "set_intersection", "set_difference"} ->
